@@ -66,6 +66,12 @@ func (t *tie) deliver(dir int, wire []byte, sizes []int) {
 	}
 }
 
+func (t *tie) failWith(dir int, chunk []byte, cls string) {
+	if t.model != nil {
+		t.model.FailWith(dir, chunk, cls)
+	}
+}
+
 func (t *tie) checkEnc(dir int, fs []o4pair.Frame) {
 	if t.model == nil || t.encBad != nil {
 		return
